@@ -78,6 +78,7 @@ fn defval_sql(v: &DefVal) -> Option<SqlVal> {
         DefVal::Null => SqlVal::Null,
         DefVal::CurrentTimestamp => return None,
         DefVal::Bytes(b) => SqlVal::Blob(b.clone()),
+        DefVal::Json(t) => SqlVal::text(&json_default(t).to_string()),
     })
 }
 
@@ -112,6 +113,7 @@ fn spec_sig(c: &Col) -> String {
                 DefVal::Null => "null",
                 DefVal::CurrentTimestamp => "current_timestamp",
                 DefVal::Bytes(_) => "bytes",
+                DefVal::Json(_) => "json",
             }),
             CS::Check(_) => "Check".into(),
             CS::CheckLt(_) => "Check<".into(),
